@@ -14,8 +14,8 @@ SPEC = {
     "rule": "schedules (10..300 steps, 1..3 peers) of commands (hk/idle, include, startsync, continuesync, reqblocks, fetcheb, "
             "ban/demote) interleaved with connect / confirm (Sent) / arrive / reply (7 protocols, 1..4 reply choices) / deliver "
             "(batches of 1..3) / drop / fail steps against a specification-conformant simulated responder; two thirds of the "
-            "cases confirm every Send before the next step (the partial theorem's domain), one third delay confirmations "
-            "arbitrarily; distinct = sha1 of op text; non-trivial = at least five Sends were emitted to live connections and at "
+            "cases stay inside the theorem's domain (Sends confirmed at once, or only after they reached the responder and were perhaps "
+            "answered), one third delay confirmations arbitrarily; distinct = sha1 of op text; non-trivial = at least five Sends were emitted to live connections and at "
             "least one responder reply was delivered",
     "trusted_base": [
         "lib/translate_fsm.py (Tie A, shared with C24): Gen/FsmN2.lean is regenerated from pallas-network2/src/protocol/* on every "
@@ -33,7 +33,7 @@ SPEC = {
         "for a connection with an unconfirmed Send of X (the complement is the known finding, emitOK_complement) and (b) no reply of "
         "protocol X is delivered while the X request is unconfirmed; schedules violating (b) are sampled only",
     ],
-    "explanation": "self-tests on the pallas worktree (reverted afterwards): chainsync visit_tagged without the is_idle guard -> "
+    "explanation": "every reply line carries `dom0/dom1` = whether all steps so far satisfy the side conditions of initiator_conformant_delayed, computed by Model/P2PDomain.lean on the model side and independently by the harness (compared like any other reply field); a violation observed while still in the domain is keyed `nonconformant-in-domain` and never matches the known finding. self-tests on the pallas worktree (reverted afterwards): chainsync visit_tagged without the is_idle guard -> "
                    "VIOLATION (nonconformant cs.reqnext in-state-A, replay of 14 steps); "
                    "keepalive guard inverted -> VIOLATION; logging / let-else refactor of blockfetch peer_is_available -> quiet.",
 }
